@@ -243,11 +243,11 @@ def G3(ctx: Ctx) -> RuleResult:
             else:
                 r.fail(f'{t.name}:{lx}', f'grammar accepts unary operator {lx!r} but no BuiltinUnaryOperator has that token', 'src/hpl/grammar.py')
     # lookup idiom: for member in Enum.__members__.values(): if member.token == op: return member.value
-    from .terms import Attr as _Attr, Loop as _Loop, Op as _Op, Sym as _Sym, norm_guards as _ng, walk as _walk
+    from .terms import Evaluator as _Ev, helper_inline as _hi, Attr as _Attr, Loop as _Loop, Op as _Op, Sym as _Sym, norm_guards as _ng, walk as _walk
     for fn, enum in (('_convert_unary_operator', 'BuiltinUnaryOperator'), ('_convert_binary_operator', 'BuiltinBinaryOperator')):
         fi = ctx.model.func('hpl.ast.expressions', fn, 'G3')
         op = _Sym('op')
-        outs = ctx.ev.run(fi, {fi.params()[0]: op})
+        outs = _Ev(ctx.model, inline=_hi(('hpl.ast.expressions',), exclude=(fn,))).run(fi, {fi.params()[0]: op})
         found = False
         raises = any(o.kind == 'raise' and 'ValueError' in repr(o.value) for o in outs)
         for o in outs:
